@@ -16,7 +16,7 @@
 (* the expected outcome for the real 64-bit allocator; AllocGuardMC checks them *)
 (* against concrete arithmetic for W = 256, together with the law that makes    *)
 (* the guard correct, and refutes an unguarded allocator.                       *)
-EXTENDS Integers
+EXTENDS Integers, Sequences
 
 Rels == {"abs", "max", "ovf"}
 
@@ -28,4 +28,49 @@ Representable(byteSized, rel, d) ==
 
 \* the clause: a request beyond max_size() (equivalently: one whose byte count overflows) must throw length_error
 MustThrow(rel, d) == rel \in {"max", "ovf"} /\ d > 0
+
+-------------------------------------------------------------------------------
+(* Element types.  The statement quantifies over "AlignedVector of several      *)
+(* element sizes": an element type is [size |-> sizeof(T), align |-> alignof(T)] *)
+(* and every law below is a FORMULA in these two numbers - sizes below, at and  *)
+(* above the 64-byte alignment of the blocks, powers of two or not (63, 64, 65, *)
+(* 72, 96, 127, 128, 129, 160, 200 ...), over-aligned types (alignof = 128 > 64) *)
+(* and the types an allocator gets REBOUND to (rebind<U>::other: node types of   *)
+(* odd sizes, 1 byte) are all instances of the same formulas:                    *)
+(*   - every block handed out by aligned_allocator<T> is AllocAlign-aligned,     *)
+(*     whatever sizeof(T) / alignof(T) are (also when alignof(T) > AllocAlign:   *)
+(*     the statement promises 64, not alignof(T));                               *)
+(*   - max_size() = (W - 1) div sizeof(T), with W = 2^64 written as limbs;       *)
+(*   - a request of n elements with n * sizeof(T) <= SmallBytes SUCCEEDS (no     *)
+(*     null, no bad_alloc: a few KiB are always available to the test process)   *)
+(*     and n * sizeof(T) bytes of it are usable;                                 *)
+(*   - a request beyond max_size() throws length_error (MustThrow).              *)
+IsPow2(a)  == a \in {1, 2, 4, 8, 16, 32, 64, 128, 256, 512, 1024, 2048, 4096}
+ETypeOK(t) == t.size \in 1..32767 /\ IsPow2(t.align) /\ t.size % t.align = 0
+AllocAlign == 64
+SmallBytes == 16777216
+
+\* numbers of nl limbs of base `base`, most significant first (the real size_t: base 2^16, 4 limbs)
+LimbVal(base, x) == LET RECURSIVE V(_) V(k) == IF k = 0 THEN 0 ELSE V(k - 1) * base + x[k] IN V(Len(x))
+\* (base^nl - 1) div es by long division; es < 2^15 keeps every intermediate value below 2^31
+DivAllOnes(base, nl, es) ==
+  LET RECURSIVE R(_)        \* remainder after k limbs
+      R(k) == IF k = 0 THEN 0 ELSE (R(k - 1) * base + (base - 1)) % es
+  IN [k \in 1..nl |-> (R(k - 1) * base + (base - 1)) \div es]
+\* x + d (d a small integer, possibly negative), modulo base^nl: size_t arithmetic
+AddSmall(base, nl, x, d) ==
+  LET RECURSIVE C(_)        \* carry into limb k (k = nl + 1: the addend)
+      C(k) == IF k = nl + 1 THEN d ELSE (x[k] + C(k + 1)) \div base
+  IN [k \in 1..nl |-> (x[k] + C(k + 1)) % base]
+MaxSizeL(base, nl, es) == DivAllOnes(base, nl, es)
+\* the symbolic request [rel, d] for element size es, as a number
+RequestL(base, nl, es, rel, d) ==
+  CASE rel = "abs" -> AddSmall(base, nl, [k \in 1..nl |-> 0], d)
+    [] rel = "max" -> AddSmall(base, nl, MaxSizeL(base, nl, es), d)
+    [] rel = "ovf" -> AddSmall(base, nl, DivAllOnes(base, nl, es), d)
+\* the real size_t
+MaxSize64(es)          == MaxSizeL(65536, 4, es)
+Request64(es, rel, d)  == RequestL(65536, 4, es, rel, d)
+\* requests that must succeed, and the bytes they make usable
+SmallRequest(es, rel, d) == rel = "abs" /\ d > 0 /\ d * es <= SmallBytes
 ===============================================================================
